@@ -18,6 +18,8 @@ from ..tlc import MachineryError
 # Developer override (like VERIF_REPO; registered commands never set it): replay only every k-th enumerated state and
 # draw 1/k of the random cases, to try a mutant quickly.  With k > 1 no exhaustiveness is claimed.
 DEV_STRIDE = max(1, int(os.environ.get("VERIF_DEV_STRIDE", "1") or 1))
+# Developer override for cheap seed sweeps: skip direction 1 (which does not depend on the seed) altogether.
+DEV_RANDOM_ONLY = bool(os.environ.get("VERIF_DEV_RANDOM_ONLY"))
 
 ID = "C13"
 LEVEL = "model_checking"
@@ -353,23 +355,7 @@ def _count_boundaries(ctx, rec):
 
 
 # ---------------------------------------------------------------------------------------- run
-def run(ctx: Ctx):
-    thorough = ctx.tier == "thorough"
-    L = 7 if thorough else 6          # get_regions replay scope
-    LS = 7 if thorough else 5         # scanner state machine (no replay; one TLC state per line)
-    LB = 6 if thorough else 4         # blank-line scope
-    LC = 3 if thorough else 2         # two-sequence contig scope
-    ctx.rule = ("direction 1: every state of MC_Access -- all FASTA texts of <= 2 sequences, total length <= "
-                f"{L} over {{N, n, A}} at every line width 1..4 (get_regions), and all one-sequence texts of length <= 4 over {{N, A}} x "
-                "exclude sets of <= 2 rows (one or two files) x min_gap 0..3 (thorough: length <= 5, 0..4), plus two-sequence texts x contig names x "
-                "skip_noncanonical (do_access) -- written as real FASTA/BED files and replayed; direction 2: seeded random "
-                "FASTA texts (1..4 sequences incl. empty, runs 0..200 of N/n/ACGT/acgt, widths 1..80, blank lines, CRLF, "
-                "header descriptions), exclude BEDs (touching edges, nested, overlapping, unknown contigs, unsorted), "
-                "min_gap 0..300, names of every class of the contig-name rule and near misses. A case is distinct by "
-                "(op, fasta lines, exclude files, min_gap, skip); non-trivial when some sequence has a non-N character.")
-    alpha3 = [N, LOWER_N, A]
-    recs = []
-
+def _direction1(ctx, recs, thorough, L, LS, LB, LC, alpha3):
     # (1) the scanner as a state machine, one action per line kind; inductive invariant at every line
     cfg = ctx.cfg("mc-scan", invariants=["DesignOK", "ScanInv", "ScanMatchesFold"],
                   constants=_constants(["scan"], 2, LS, alpha3, [1, 2, 3, 4], [0]))
@@ -430,7 +416,30 @@ def run(ctx: Ctx):
                       f"of total length <= {LC} x names {{chr1,chrM,chrUn_x}} x skip on/off x <=1 exclude row x min_gap 0..2 "
                       "-- every dumped call replayed")
 
-    if DEV_STRIDE > 1:
+
+
+def run(ctx: Ctx):
+    thorough = ctx.tier == "thorough"
+    L = 7 if thorough else 6          # get_regions replay scope
+    LS = 7 if thorough else 5         # scanner state machine (no replay; one TLC state per line)
+    LB = 6 if thorough else 4         # blank-line scope
+    LC = 3 if thorough else 2         # two-sequence contig scope
+    ctx.rule = ("direction 1: every state of MC_Access -- all FASTA texts of <= 2 sequences, total length <= "
+                f"{L} over {{N, n, A}} at every line width 1..4 (get_regions), and all one-sequence texts of length <= 4 over {{N, A}} x "
+                "exclude sets of <= 2 rows (one or two files) x min_gap 0..3 (thorough: length <= 5, 0..4), plus two-sequence texts x contig names x "
+                "skip_noncanonical (do_access) -- written as real FASTA/BED files and replayed; direction 2: seeded random "
+                "FASTA texts (1..4 sequences incl. empty, runs 0..200 of N/n/ACGT/acgt, widths 1..80, blank lines, CRLF, "
+                "header descriptions), exclude BEDs (touching edges, nested, overlapping, unknown contigs, unsorted), "
+                "min_gap 0..300, names of every class of the contig-name rule and near misses. A case is distinct by "
+                "(op, fasta lines, exclude files, min_gap, skip); non-trivial when some sequence has a non-N character.")
+    alpha3 = [N, LOWER_N, A]
+    recs = []
+
+    if not DEV_RANDOM_ONLY:
+        _direction1(ctx, recs, thorough, L, LS, LB, LC, alpha3)
+    else:
+        REQUIRE_ACTIONS.clear()
+    if DEV_STRIDE > 1 or DEV_RANDOM_ONLY:
         ctx.exhaustive = None
         ctx.notes["dev_stride"] = DEV_STRIDE
     # direction 2
